@@ -2,7 +2,8 @@
 struct values are resolved against the expanded source of rspirv (by last path segments; ambiguous names are not inlined), so a
 rule can evaluate an entry point together with the helpers it is written in terms of.  Word values use the byte-lane algebra of
 lookx.VH (shifts/masks by whole bytes are exact; anything else stays symbolic)."""
-from ..symeval import SymEval, NONE, UNIT, Return
+from ..symeval import SymEval, Hooks, NONE, UNIT, Return
+from .. import symeval as _symeval
 from ..tree import lastseg, strip_generics
 from . import lookx
 
@@ -33,13 +34,14 @@ def _index(ctx):
     return ctx.memo("progx_index", build)
 
 
-class InlineHooks(lookx.VH):
-    """subclasses set self.ctx and self.ev (the SymEval using these hooks)"""
+class _InlineMixin:
+    """evaluates calls into the analysed crate in place; combined with a base hooks class below"""
     MAXDEPTH = 8
     NO_INLINE = ()
 
-    def __init__(self, ctx):
-        lookx.VH.__init__(self)
+    is_inliner = True
+
+    def _init_inline(self, ctx):
         self.ctx = ctx
         self.ev = None
         self._depth = 0
@@ -53,6 +55,8 @@ class InlineHooks(lookx.VH):
             env["self"] = selfv
         self._depth += 1
         self.ev.note_ret(f)
+        inl = self.ctx.memo("inlined_fns", dict)
+        inl.setdefault("%s::%s" % (f.get("self_ty") or "", f["name"]), set()).add(self.ev.what)
         try:
             try:
                 return self.ev.block(f["body"], env)
@@ -62,7 +66,7 @@ class InlineHooks(lookx.VH):
             self._depth -= 1
 
     def path(self, p):
-        r = lookx.VH.path(self, p)
+        r = super().path(p)
         if r is not NotImplemented:
             return r
         meth, free, consts = _index(self.ctx)
@@ -86,10 +90,10 @@ class InlineHooks(lookx.VH):
     def binary(self, op, a, b, e):
         if isinstance(a, int) and isinstance(b, int):
             return NotImplemented
-        return lookx.VH.binary(self, op, a, b, e)
+        return super().binary(op, a, b, e)
 
     def call(self, p, args, e):
-        r = lookx.VH.call(self, p, args, e)
+        r = super().call(p, args, e)
         if r is not NotImplemented:
             return r
         segs = p.split("::")
@@ -105,7 +109,7 @@ class InlineHooks(lookx.VH):
         if len(segs) >= 2 and segs[-2][:1].isupper():
             st = segs[-2]
             if st == "Self":
-                st = getattr(self, "self_ty", None)
+                st = getattr(self, "self_ty", None) or getattr(self.ev, "fn_self_ty", None)
             c = meth.get((st, segs[-1]), [])
             if len(c) == 1:
                 f = c[0]
@@ -125,7 +129,7 @@ class InlineHooks(lookx.VH):
         return NotImplemented
 
     def mcall(self, recv, m, args, e, ev):
-        r = lookx.VH.mcall(self, recv, m, args, e, ev)
+        r = super().mcall(recv, m, args, e, ev)
         if r is not NotImplemented:
             return r
         if isinstance(recv, tuple) and recv and recv[0] == "enum" and "::" in recv[1] and m not in self.NO_INLINE:
@@ -149,6 +153,57 @@ class InlineHooks(lookx.VH):
                 finally:
                     self.self_ty = saved
         return NotImplemented
+
+
+
+    def struct_built(self, name, fields):
+        """fields initialised with `Default::default()` get the default of their declared type"""
+        if not any(v == ("default",) for v in fields.values()):
+            return fields
+        decl = None
+        for m in self.ctx.rspirv.modules():
+            for it in self.ctx.rspirv.items(m, "struct"):
+                if it.get("name") == name:
+                    decl = it
+        if decl is None:
+            return fields
+        types = {}
+        for fl in decl.get("fields", []):
+            if isinstance(fl, (list, tuple)) and len(fl) >= 2:
+                types[fl[0]] = str(fl[1]).replace(" ", "")
+        out = dict(fields)
+        for k, v in fields.items():
+            if v != ("default",):
+                continue
+            t = types.get(k, "")
+            if t.startswith("Option<"):
+                out[k] = NONE
+            elif t.startswith(("Vec<", "vec::Vec<")):
+                out[k] = ("list", [])
+            elif t in ("u8", "u16", "u32", "u64", "usize", "i32", "i64", "spirv::Word", "Word"):
+                out[k] = 0
+            elif t == "bool":
+                out[k] = False
+            elif t in ("String", "string::String"):
+                out[k] = ("str", "")
+            elif "HashMap<" in t or "BTreeMap<" in t:
+                out[k] = ("map", {})
+        return out
+
+
+class InlineHooks(_InlineMixin, lookx.VH):
+    """subclasses set self.ev (the SymEval using these hooks); word values use the byte-lane algebra of lookx.VH"""
+
+    def __init__(self, ctx):
+        lookx.VH.__init__(self)
+        self._init_inline(ctx)
+
+
+class Inliner(_InlineMixin, Hooks):
+    """only the in-place evaluation of crate functions: the fallback behind every rule's own hooks"""
+
+    def __init__(self, ctx):
+        self._init_inline(ctx)
 
 
 class OpHooks(InlineHooks):
@@ -190,3 +245,6 @@ def make(hooks, what):
     ev = SymEval(hooks, what)
     hooks.ev = ev
     return ev
+
+
+_symeval.FALLBACK_FACTORY = Inliner
